@@ -65,10 +65,8 @@ Example listed_truthful_ex :
                /\ af_crc32 p = Some 907060870 /\ crc_check p (s2z "hello") = true /\ crc_check p (s2z "hellp") = false.
 Proof. do 2 eexists. split; [vm_compute; reflexivity|]. split; [reflexivity|]. vm_compute. repeat split. Qed.
 
-(* "every CRC the format stores for a member is listed" is false of the reader: a CRC stored at folder level for a
-   folder with a single file is not carried to the member when SubStreamsInfo has no CRC record (crc32 = None).
-   What holds: listed_crc_truthful above (a CRC that IS listed is right) and listing_conforms / listing_truthful_on_nice
-   below (listed = the format's, whenever the header graph is the image of the specification header) *)
+(* the former counterexample (repaired in SubstreamsInfo._read): a CRC stored at folder level for a folder with a single
+   file and no CRC record in SubStreamsInfo is carried to the member, so the listing shows the CRC the format assigns *)
 Theorem listed_crc_folder_level :
   match s_header 4096 folder_crc_bytes, parse_header 4096 folder_crc_bytes with
   | Ok sh, Ok h => s_valid sh = true /\ map pl_crc (spec_plans sh) = [Some 891568578]
